@@ -19,4 +19,14 @@ CHECKS.update({
   "text": "Key algebra records (~39k quick) incl. histories of mixed negate/add/mul/x-only/keypair tweaks applied to secret and public side in lock-step, combine with cancelling prefixes, sort/cmp up to 200 keys; each output compared with the integer / point model, failures judged through the API (seckey_verify, serializer refusal).",
   "note": "Trusted: ref/ec.py group law (self-tested against a plain affine ladder)."},
 })
+CHECKS.update({
+ "C14": {
+  "technique": "runtime monitoring: sanitizer build + DLEQ/adaptor-equation reference oracle; honest pipelines and an adversarial prover choosing s'",
+  "text": "encrypt->verify->decrypt->ECDSA verify->recover pipelines and ~35k adaptor_verify/recover/decrypt records (quick) under ASan+UBSan+VERIFY; encryption compared byte for byte with the model, verification compared on all 1296 single-bit flips of some signatures, sampled flips, scalar := 0/n/+n, point negation/off-curve/x>=p, and on signatures whose s' is chosen small by solving for the message so that s'+n is constructible.",
+  "note": "Trusted: ref/adaptor.py. DLEQ response +n re-encodings need the small-group build (not reachable on the real curve)."},
+ "C16": {
+  "technique": "runtime monitoring: sanitizer build + ring-equation reference oracle; honest, public-data-only and chosen-scalar forgeries",
+  "text": "whitelist sign/verify/parse/serialize records for key counts 1..255 (every count <= 8, 127/128/254/255, sampled others) with every signer index for small lists; verify compared with an independent model on honest signatures, the empty-ring forgery (finding F1, fixed), reference-prover rings with small scalars and s+n re-encodings, bit flips, count/length edits and key-list edits.",
+  "note": "Trusted: ref/whitelist.py, ref/borromean.py. Degenerate offline_i = -W lists are only checked for memory safety."},
+})
 NOT_APPLICABLE = {}
